@@ -286,6 +286,15 @@ where
         let mut send_buffer = self.send_buffer.inner.lock().unwrap();
         let send_buffer = &mut *send_buffer;
 
+        #[cfg(feature = "verif-hooks")]
+        let _verif_d = crate::verif::enter("disp.send_request", || {
+            vec![
+                end_of_stream as i64,
+                me.actions.send.verif_disp_ids()[0],
+                me.actions.conn_error.is_some() as i64,
+                me.counts.peer().is_server() as i64,
+            ]
+        });
         me.actions.ensure_no_conn_error()?;
         me.actions.send.ensure_next_stream_id()?;
 
@@ -445,6 +454,13 @@ impl<B> DynStreams<'_, B> {
 
     pub fn send_go_away(&mut self, last_processed_id: StreamId) {
         let mut me = self.inner.lock().unwrap();
+        #[cfg(feature = "verif-hooks")]
+        crate::verif::ev("disp.go_away_sent", || {
+            vec![
+                u32::from(last_processed_id) as i64,
+                me.actions.recv.verif_disp_ids()[1],
+            ]
+        });
         me.actions.recv.go_away(last_processed_id);
     }
 }
@@ -471,6 +487,17 @@ impl Inner {
         frame: frame::Headers,
     ) -> Result<(), Error> {
         let id = frame.stream_id();
+        #[cfg(feature = "verif-hooks")]
+        let _verif_d = crate::verif::enter("disp.recv_headers", || {
+            let mut v = vec![
+                u32::from(id) as i64,
+                frame.is_end_stream() as i64,
+                frame.is_informational() as i64,
+                frame.is_over_size() as i64,
+            ];
+            v.extend(self.verif_disp(id));
+            v
+        });
 
         // The GOAWAY process has begun. All streams with a greater ID than
         // specified as part of GOAWAY should be ignored.
@@ -603,6 +630,17 @@ impl Inner {
             ]
         });
         let id = frame.stream_id();
+        #[cfg(feature = "verif-hooks")]
+        let _verif_d = crate::verif::enter("disp.recv_data", || {
+            let mut v = vec![
+                u32::from(id) as i64,
+                frame.is_end_stream() as i64,
+                frame.payload().len() as i64,
+                frame.flow_controlled_len() as i64,
+            ];
+            v.extend(self.verif_disp(id));
+            v
+        });
 
         let stream = match self.store.find_mut(&id) {
             Some(stream) => stream,
@@ -681,6 +719,12 @@ impl Inner {
         frame: frame::Reset,
     ) -> Result<(), Error> {
         let id = frame.stream_id();
+        #[cfg(feature = "verif-hooks")]
+        let _verif_d = crate::verif::enter("disp.recv_reset", || {
+            let mut v = vec![u32::from(id) as i64, u32::from(frame.reason()) as i64];
+            v.extend(self.verif_disp(id));
+            v
+        });
 
         if id.is_zero() {
             proto_err!(conn: "recv_reset: invalid stream ID 0");
@@ -739,6 +783,12 @@ impl Inner {
         frame: frame::WindowUpdate,
     ) -> Result<(), Error> {
         let id = frame.stream_id();
+        #[cfg(feature = "verif-hooks")]
+        let _verif_d = crate::verif::enter("disp.recv_window_update", || {
+            let mut v = vec![u32::from(id) as i64, frame.size_increment() as i64];
+            v.extend(self.verif_disp(id));
+            v
+        });
 
         let mut send_buffer = send_buffer.inner.lock().unwrap();
         let send_buffer = &mut *send_buffer;
@@ -788,6 +838,8 @@ impl Inner {
     }
 
     fn handle_error<B>(&mut self, send_buffer: &SendBuffer<B>, err: proto::Error) -> StreamId {
+        #[cfg(feature = "verif-hooks")]
+        let _verif_d = crate::verif::enter("disp.handle_error", || verif_disp_error(&err));
         let actions = &mut self.actions;
         let counts = &mut self.counts;
         let mut send_buffer = send_buffer.inner.lock().unwrap();
@@ -812,6 +864,16 @@ impl Inner {
         send_buffer: &SendBuffer<B>,
         frame: &frame::GoAway,
     ) -> Result<(), Error> {
+        #[cfg(feature = "verif-hooks")]
+        let _verif_d = crate::verif::enter("disp.recv_go_away", || {
+            let mut v = vec![
+                u32::from(frame.last_stream_id()) as i64,
+                u32::from(frame.reason()) as i64,
+                self.actions.send.verif_disp_ids()[1],
+            ];
+            v.extend(frame.debug_data().iter().map(|b| *b as i64));
+            v
+        });
         let actions = &mut self.actions;
         let counts = &mut self.counts;
         let mut send_buffer = send_buffer.inner.lock().unwrap();
@@ -845,6 +907,16 @@ impl Inner {
     ) -> Result<(), Error> {
         let id = frame.stream_id();
         let promised_id = frame.promised_id();
+        #[cfg(feature = "verif-hooks")]
+        let _verif_d = crate::verif::enter("disp.recv_push_promise", || {
+            let mut v = vec![
+                u32::from(id) as i64,
+                u32::from(promised_id) as i64,
+                frame.is_over_size() as i64,
+            ];
+            v.extend(self.verif_disp(id));
+            v
+        });
 
         // First, ensure that the initiating stream is still in a valid state.
         let parent_key = match self.store.find_mut(&id) {
@@ -975,6 +1047,10 @@ impl Inner {
         send_buffer: &SendBuffer<B>,
         clear_pending_accept: bool,
     ) -> Result<(), ()> {
+        #[cfg(feature = "verif-hooks")]
+        let _verif_d = crate::verif::enter("disp.recv_eof", || {
+            vec![self.actions.conn_error.is_some() as i64]
+        });
         let actions = &mut self.actions;
         let counts = &mut self.counts;
         let mut send_buffer = send_buffer.inner.lock().unwrap();
@@ -1066,6 +1142,12 @@ impl Inner {
         id: StreamId,
         reason: Reason,
     ) -> Result<(), crate::proto::error::GoAway> {
+        #[cfg(feature = "verif-hooks")]
+        let _verif_d = crate::verif::enter("disp.poll2_reset", || {
+            let mut v = vec![u32::from(id) as i64, u32::from(reason) as i64];
+            v.extend(self.verif_disp(id));
+            v
+        });
         let key = match self.store.find_entry(id) {
             Entry::Occupied(e) => e.key(),
             Entry::Vacant(e) => {
@@ -1250,6 +1332,12 @@ impl<B> StreamRef<B> {
     {
         let mut me = self.opaque.inner.lock().unwrap();
         let me = &mut *me;
+        #[cfg(feature = "verif-hooks")]
+        let _verif_d = crate::verif::enter("disp.send_data", || {
+            let mut v = vec![end_stream as i64];
+            v.extend(me.verif_disp_key(self.opaque.key));
+            v
+        });
 
         let stream = me.store.resolve(self.opaque.key);
         let actions = &mut me.actions;
@@ -1271,6 +1359,9 @@ impl<B> StreamRef<B> {
     pub fn send_trailers(&mut self, trailers: HeaderMap) -> Result<(), UserError> {
         let mut me = self.opaque.inner.lock().unwrap();
         let me = &mut *me;
+        #[cfg(feature = "verif-hooks")]
+        let _verif_d =
+            crate::verif::enter("disp.send_trailers", || me.verif_disp_key(self.opaque.key));
 
         let stream = me.store.resolve(self.opaque.key);
         let actions = &mut me.actions;
@@ -1291,6 +1382,12 @@ impl<B> StreamRef<B> {
     pub fn send_reset(&mut self, reason: Reason) {
         let mut me = self.opaque.inner.lock().unwrap();
         let me = &mut *me;
+        #[cfg(feature = "verif-hooks")]
+        let _verif_d = crate::verif::enter("disp.send_reset", || {
+            let mut v = vec![u32::from(reason) as i64];
+            v.extend(me.verif_disp_key(self.opaque.key));
+            v
+        });
 
         let stream = me.store.resolve(self.opaque.key);
         let mut send_buffer = self.send_buffer.inner.lock().unwrap();
@@ -1315,6 +1412,12 @@ impl<B> StreamRef<B> {
     pub fn send_informational_headers(&mut self, frame: frame::Headers) -> Result<(), UserError> {
         let mut me = self.opaque.inner.lock().unwrap();
         let me = &mut *me;
+        #[cfg(feature = "verif-hooks")]
+        let _verif_d = crate::verif::enter("disp.send_info", || {
+            let mut v = vec![frame.is_end_stream() as i64];
+            v.extend(me.verif_disp_key(self.opaque.key));
+            v
+        });
 
         let stream = me.store.resolve(self.opaque.key);
         let actions = &mut me.actions;
@@ -1358,6 +1461,12 @@ impl<B> StreamRef<B> {
         response.extensions_mut().clear();
         let mut me = self.opaque.inner.lock().unwrap();
         let me = &mut *me;
+        #[cfg(feature = "verif-hooks")]
+        let _verif_d = crate::verif::enter("disp.send_response", || {
+            let mut v = vec![end_of_stream as i64];
+            v.extend(me.verif_disp_key(self.opaque.key));
+            v
+        });
 
         let stream = me.store.resolve(self.opaque.key);
         let actions = &mut me.actions;
@@ -1381,6 +1490,16 @@ impl<B> StreamRef<B> {
         request.extensions_mut().clear();
         let mut me = self.opaque.inner.lock().unwrap();
         let me = &mut *me;
+        #[cfg(feature = "verif-hooks")]
+        let _verif_d = crate::verif::enter("disp.push_request", || {
+            let mut v = vec![
+                me.actions.send.verif_disp_ids()[0],
+                me.actions.send.verif_disp_ids()[1],
+                me.actions.send.verif_disp_ids()[2],
+            ];
+            v.extend(me.verif_disp_key(self.opaque.key));
+            v
+        });
 
         let mut send_buffer = self.send_buffer.inner.lock().unwrap();
         let send_buffer = &mut *send_buffer;
@@ -1501,6 +1620,12 @@ impl<B> StreamRef<B> {
     ) -> Poll<Result<Reason, crate::Error>> {
         let mut me = self.opaque.inner.lock().unwrap();
         let me = &mut *me;
+        #[cfg(feature = "verif-hooks")]
+        crate::verif::ev("disp.poll_reset", || {
+            let mut v = vec![matches!(mode, proto::PollReset::Streaming) as i64];
+            v.extend(me.verif_disp_key(self.opaque.key));
+            v
+        });
 
         let mut stream = me.store.resolve(self.opaque.key);
 
@@ -1745,6 +1870,8 @@ fn drop_stream_ref(inner: &Mutex<Inner>, key: store::Key) {
 
     let me = &mut *me;
     me.refs -= 1;
+    #[cfg(feature = "verif-hooks")]
+    let _verif_d = crate::verif::enter("disp.drop_ref", || me.verif_disp_key(key));
     let mut stream = me.store.resolve(key);
     #[cfg(feature = "verif-hooks")]
     crate::verif::ev("streams.ref_drop", || {
@@ -2085,5 +2212,91 @@ where
             snap.streams.push((v, format!("{:?}", s.state)));
         }
         snap
+    }
+}
+
+#[cfg(feature = "verif-hooks")]
+impl Inner {
+    fn verif_disp_stream(&self, found: i64, s: Option<&Stream>) -> Vec<i64> {
+        let mut v = vec![found];
+        match s {
+            Some(s) => {
+                v.extend(s.state.verif_code());
+                v.push(
+                    (s.is_pending_open as i64)
+                        | (s.is_pending_push as i64) << 1
+                        | (s.reset_at.is_some() as i64) << 2
+                        | (s.is_pending_send as i64) << 3
+                        | (s.is_pending_accept as i64) << 4
+                        | (s.is_recv as i64) << 5
+                        | (s.is_counted as i64) << 6,
+                );
+                v.push(s.pending_send.is_empty() as i64);
+                v.push(s.buffered_send_data as i64);
+                v.push(s.ref_count as i64);
+            }
+            None => v.extend([0; 10]),
+        }
+        let snd = self.actions.send.verif_disp_ids();
+        let rcv = self.actions.recv.verif_disp_ids();
+        v.extend([snd[0], rcv[0], snd[1], rcv[1], rcv[2]]);
+        v.push(self.actions.conn_error.is_some() as i64);
+        v.push(s.map(|s| s.verif_serial).unwrap_or(-1));
+        v
+    }
+
+    /// The record `store.ids` finds for `id`, and the identifier bookkeeping (verification hook, read-only).
+    fn verif_disp(&self, id: StreamId) -> Vec<i64> {
+        let s = self.store.verif_find(id);
+        self.verif_disp_stream(s.is_some() as i64, s)
+    }
+
+    /// The record a handle or a queue holds by key (verification hook, read-only).
+    fn verif_disp_key(&self, key: store::Key) -> Vec<i64> {
+        let s = &self.store[key];
+        let linked = self
+            .store
+            .verif_find(s.id)
+            .map(|t| t.verif_serial == s.verif_serial)
+            .unwrap_or(false);
+        self.verif_disp_stream(if linked { 1 } else { 2 }, Some(s))
+    }
+}
+
+#[cfg(feature = "verif-hooks")]
+fn verif_disp_error(e: &proto::Error) -> Vec<i64> {
+    fn ini(i: Initiator) -> i64 {
+        match i {
+            Initiator::User => 0,
+            Initiator::Library => 1,
+            Initiator::Remote => 2,
+        }
+    }
+    match e {
+        proto::Error::Reset(id, reason, i) => {
+            vec![0, u32::from(*reason) as i64, ini(*i), u32::from(*id) as i64]
+        }
+        proto::Error::GoAway(d, reason, i) => {
+            let mut v = vec![1, u32::from(*reason) as i64, ini(*i)];
+            v.extend(d.iter().map(|b| *b as i64));
+            v
+        }
+        proto::Error::Io(kind, msg) => {
+            let mut v = vec![
+                2,
+                match kind {
+                    io::ErrorKind::BrokenPipe => 1,
+                    io::ErrorKind::UnexpectedEof => 2,
+                    io::ErrorKind::ConnectionReset => 3,
+                    io::ErrorKind::Other => 4,
+                    _ => 9,
+                },
+                msg.is_some() as i64,
+            ];
+            if let Some(m) = msg {
+                v.extend(m.bytes().map(|b| b as i64));
+            }
+            v
+        }
     }
 }
